@@ -339,6 +339,16 @@ Proof.
   repeat step_both; cbn; try reflexivity; try congruence.
 Qed.
 
+(* ---------- impl/impl.go: UpdateValidationStatus ---------- *)
+Theorem update_validation_is_source : forall k vr s,
+  same_run (run (with_self (fun self => gen_UpdateValidationStatus self k vr)) s) (run (update_validation k vr) s).
+Proof.
+  intros k vr s. unfold with_self, gen_UpdateValidationStatus, gen_updateValidationStatus, gen_processValidationUpdate,
+    gen_handleTransportUpdate, gen_recordRejectedValidationEvents, gen_recordAcceptedValidationEvents,
+    update_validation, record_rejected, record_accepted, validation_result_response, send, send0.
+  both.
+Qed.
+
 (* ---------- the statements the property files restate ---------- *)
 Definition runs_like (g m : prog nret) : Prop := forall s, same_run (run g s) (run m s).
 
